@@ -30,6 +30,7 @@ import (
 	"sync"
 	texttemplate "text/template"
 	"time"
+	"unicode"
 
 	"golang.org/x/crypto/ssh"
 	"golang.org/x/net/context"
@@ -1168,8 +1169,13 @@ func getLoginDestination(r *http.Request) string {
 	loginDestination := profilePath
 	if r.FormValue("login_destination") != "" {
 		inboundLoginDestination := r.Form.Get("login_destination")
+		// Browsers treat a backslash as a slash and drop tabs and newlines
+		// when resolving a URL, so "/\host" and "/<TAB>/host" also leave the
+		// origin.
 		if strings.HasPrefix(inboundLoginDestination, "/") &&
-			!strings.HasPrefix(inboundLoginDestination, "//") {
+			!strings.HasPrefix(inboundLoginDestination, "//") &&
+			!strings.HasPrefix(inboundLoginDestination, "/\\") &&
+			strings.IndexFunc(inboundLoginDestination, unicode.IsControl) < 0 {
 			loginDestination = inboundLoginDestination
 		}
 	}
